@@ -25,6 +25,9 @@ for i in ids:
     if len(summ) > 150:
         summ = summ[:147] + '...'
     r = rows.get(i)
+    if meta.get('obsolete_after'):
+        lines.append(f"| {i} | {summ} | obsolete (code removed by fix {meta['obsolete_after'].split()[0]}) | | |")
+        continue
     if not r:
         lines.append(f"| {i} | {summ} | not run | | |")
         continue
@@ -33,7 +36,7 @@ for i in ids:
     caught = 'contract+bounded' if nc and nb else 'contract' if nc else 'bounded' if nb else '**missed**'
     n_c += bool(nc); n_b += bool(nb); n_any += bool(nc or nb)
     lines.append(f"| {i} | {summ} | {caught} | {oc.strip()} | {ob.strip()} |")
-lines += ["", f"Totals: {n_any} of {len(ids)} seeds caught ({n_c} by a failing contract obligation, {n_b} by the bounded stand-in)."]
+lines += ["", f"Totals: {n_any} of {len([i for i in ids if not json.load(open(f'{root}/seeded/{i}/meta.json')).get('obsolete_after')])} applicable seeds caught ({n_c} by a failing contract obligation, {n_b} by the bounded stand-in)."]
 status = status.replace('@@MATRIX@@', '\n'.join(lines))
 d = open(f'{root}/DESIGN.md').read()
 # drop a previous section 0
